@@ -54,12 +54,13 @@ Logged ==
   \/ Is("HReadBus") /\ task[HT(Ln.act)].pc = "sync" /\ task[HT(Ln.act)].b = Ln.rb /\ UNCHANGED vars
   \/ Is("HEnter") /\ ~Ln.sync /\ task[HT(Ln.act)].b = Ln.b /\ task[HT(Ln.act)].e = Ln.e /\ task[HT(Ln.act)].h = Ln.h
                   /\ TaskLabelKind(task[HT(Ln.act)].owner) = Ln.byk /\ Ln.b = Ln.rb /\ HStart(Ln.act)
-  \/ Is("HOp") /\ task[HT(Ln.act)].pc = (IF Ln.op = "y" THEN "yield" ELSE "sleep") /\ HWake(Ln.act)
+  \/ Is("HOp") /\ Ln.op # "cleanup" /\ task[HT(Ln.act)].pc = (IF Ln.op = "y" THEN "yield" ELSE "sleep") /\ HWake(Ln.act)
+  \/ Is("HOp") /\ Ln.op = "cleanup" /\ HCleanupBegin(Ln.act)
   \/ Is("HReadBus") /\ cur = HT(Ln.act) /\ task[HT(Ln.act)].b = Ln.rb /\ UNCHANGED vars
   \/ Is("AwB") /\ \E k \in DOMAIN task[HT(Ln.act)].kids : task[HT(Ln.act)].kids[k] = Ln.e /\ HAwaitBegin(Ln.act, k)
   \/ Is("AwE") /\ ~Ln.canc /\ task[HT(Ln.act)].aw = Ln.e /\ (HAwaitDone(Ln.act) \/ InlineGiveUp(Ln.act))
   \/ Is("AwE") /\ Ln.canc /\ task[HT(Ln.act)].aw = Ln.e /\ HCancelAw(Ln.act)
-  \/ Is("HExit") /\ Ln.out = "cancel" /\ HCancelExit(Ln.act)
+  \/ Is("HExit") /\ Ln.out = "cancel" /\ (HCancelExit(Ln.act) \/ HCleanupEnd(Ln.act))
   \/ Is("ProcX") /\ Ln.exc = "Cancelled" /\ task[OwnerT].fe = Ln.e /\ task[OwnerT].fb = Ln.b /\ (OwnerAbandon(OwnerT) \/ (Ln.ok = "rl" /\ OwnerAbandonRL(Ln.b)))
   \/ Is("HExit") /\ Ln.out # "cancel" /\ task[HT(Ln.act)].pc # "sync" /\ HFinish(Ln.act, IF Ln.out = "ret" THEN "ret" ELSE "raise")
   \/ Is("ProcE") /\ task[OwnerT].fe = Ln.e /\ task[OwnerT].fb = Ln.b /\ OwnerTail(OwnerT)
@@ -91,7 +92,7 @@ Counted ==   \* silent steps that change the state
   \/ \E t \in Tasks : (ProcSelect(t) /\ task'[t].pc = "pb") \/ (OwnerNext(t) /\ task'[t].pc = "waith") \/ OwnerResume(t) \/ OwnerEpilogue(t) \/ OwnerAbort(t) \/ FwdReturn(t) \/ SyncReturn(t) \/ ParStart(t) \/ TimeoutFire(t) \/ WalBegin(t) \/ WalOpen(t, FALSE) \/ WalClose(t)
   \/ \E k \in 1..MaxAct : XStart(k) \/ XEnd(k) \/ XAbandon(k)
   \/ \E t \in Tasks : PCancelWake(t)
-  \/ \E a \in 1..MaxAct : HSuspend(a, "yield") \/ HSuspend(a, "sleep")
+  \/ \E a \in 1..MaxAct : HSuspend(a, "yield") \/ HSuspend(a, "sleep") \/ HSetCleanup(a)
   \/ \E i \in 1..NDrv : DIdleStart(i) \/ DIdleJoin(i) \/ DIdleFlag(i) \/ (DIdleRecheck(i) /\ task'[DT(i)].pc # "run")
 Spins == \E a \in 1..MaxAct : InlineSpin(a) \/ SpinWake(a)     \* 1000 zero-sleeps revisit the same two states
 
